@@ -216,7 +216,7 @@ impl<'c> Hist<'c> {
 				let a = gen::uniform_key_pool(&mut rng, 8, true);
 				pools.push(p);
 				absent.push(a);
-			} else if c.btree_index && matches!(profile, Profile::C04 | Profile::C14) && variant % 4 == 0 && i == 0 {
+			} else if c.btree_index && matches!(profile, Profile::C04 | Profile::C14) && variant % 4 == 0 && cfg.cols.iter().position(|x| x.btree_index) == Some(i) {
 				// dense integer keys: enough of them to force splits / merges at depth >= 2
 				let n = rng.range(200, 700) as usize;
 				let base = rng.below(1 << 20);
